@@ -57,6 +57,7 @@ func C13(c *Ctx) {
 	r.Rule("C13-b", "main: each call whose error is assigned (flag parsing, ParseReader, BuildParser, imports.Process, Write, Close, Open) is followed by `if err != nil { …; exit(k) }` with constant k != 0; exit(0) occurs only under the help flags; argError/input/output exit non-zero")
 	r.Rule("C13-d", "every condition-less `for { … }` loop in the generator that consumes input through a reader (ReadRune / ReadByte / Read…) tests the reader's error result and leaves the loop on it: otherwise the loop spins forever once the input is exhausted")
 	r.Rule("C13-e", "pair invariant of CharClassMatcher.Ranges (low/high pairs): every store to a Ranges field keeps the length even — nil, a copy or concatenation of pair slices, a two-element append, or a local slice built only by two-element appends; the only single-element appends are the start/end pair of the range state machine in CharClassMatcher.parse. The stride-2 loops that read Ranges[i+1] (optimizer, builder, runtime) rely on it")
+	r.Rule("C13-f", "every non-constant index into a fixed-size array in the generator is provably in range: the index is a variable bounded by an enclosing `< len` condition (if or loop), or unicode.ToUpper/ToLower of such a variable when the bound is 128 (case mapping of an ASCII rune stays ASCII; unicode.SimpleFold does not)")
 	r.Rule("C13-c", "main passes Recover(!*noRecoverFlag) to ParseReader")
 
 	g := c.G()
@@ -103,6 +104,7 @@ func C13(c *Ctx) {
 	r.MinRule("C13-a", 20)
 	c13ReaderLoops(c, g)
 	c13RangePairs(c, g)
+	c13ArrayBounds(c, g)
 	c13Exit(c, g)
 	if c.Thorough() {
 		c13CrossRef(c, g)
@@ -955,4 +957,78 @@ func c13RangePairs(c *Ctx, g *load.G) {
 		}
 	}
 	r.Min("C13-e Ranges writers", 5, n)
+}
+
+// c13ArrayBounds: indices into fixed-size arrays are bounded.
+func c13ArrayBounds(c *Ctx, g *load.G) {
+	r := c.R
+	n := 0
+	for _, sfx := range []string{"", "ast", "builder"} {
+		p := g.Pkg(sfx)
+		for _, fd := range load.AllFuncDecls(p) {
+			if fd.Body == nil || strings.HasSuffix(g.Fset.Position(fd.Pos()).Filename, "/pigeon.go") {
+				continue
+			}
+			k := 0
+			ast.Inspect(fd.Body, func(nd ast.Node) bool {
+				ix, ok := nd.(*ast.IndexExpr)
+				if !ok {
+					return true
+				}
+				t := p.TypesInfo.TypeOf(ix.X)
+				if t == nil {
+					return true
+				}
+				arr, ok := t.Underlying().(*types.Array)
+				if !ok {
+					return true
+				}
+				if tv, ok := p.TypesInfo.Types[ix.Index]; ok && tv.Value != nil {
+					return true // constant index: checked by the compiler
+				}
+				n++
+				k++
+				bound := fmt.Sprint(arr.Len())
+				// the variable at the core of the index
+				core := ix.Index
+				via := ""
+				if ce, ok := core.(*ast.CallExpr); ok && len(ce.Args) == 1 {
+					switch callName(ce) {
+					case "unicode.ToUpper", "unicode.ToLower":
+						if arr.Len() == 128 {
+							via = callName(ce)
+							core = ce.Args[0]
+						}
+					}
+				}
+				v := nospace(core)
+				proven := false
+				// enclosing if-conditions and loop conditions
+				var conds []string
+				conds = append(conds, guardsOf(fd.Body, ix.Pos())...)
+				ast.Inspect(fd.Body, func(m ast.Node) bool {
+					if f, ok := m.(*ast.ForStmt); ok && f.Cond != nil && contains(f.Body, ix.Pos()) {
+						conds = append(conds, nospace(f.Cond))
+					}
+					return true
+				})
+				for _, cd := range conds {
+					for _, conj := range strings.Split(cd, "&&") {
+						if conj == v+"<"+bound || conj == bound+">"+v {
+							proven = true
+						}
+					}
+				}
+				construct := fmt.Sprintf("G.%s.%s:array-index#%d(%s)", p.Types.Name(), fd.Name.Name, k, nospace(ix))
+				detail := "index " + v + " bounded by an enclosing `" + v + " < " + bound + "`"
+				if via != "" {
+					detail += ", mapped by " + via + " (ASCII stays ASCII)"
+				}
+				r.Check(proven, "C13-f", construct, "", g.Where(ix.Pos()), detail,
+					"no enclosing condition bounds the index "+nospace(ix.Index)+" below "+bound+": an out-of-range value makes the generator die with a Go panic trace (e.g. unicode.SimpleFold('k') is U+212A)")
+				return true
+			})
+		}
+	}
+	r.Min("C13-f array index sites", 4, n)
 }
